@@ -31,7 +31,7 @@ def shards(tier):
 
 def required_counters(tier):
     d = {'judged:path-membership': 2000, 'judged:annulus-two-subpaths': 20, 'judged:point-position': 20, 'judged:text': 20, 'judged:line': 20,
-         'judged:kwargs-override': 100, 'judged:bbox-artist': 50, 'judged:visual-applied': 50}
+         'judged:kwargs-override': 100, 'judged:bbox-artist': 50, 'judged:visual-applied': 50, 'nested-xor-artists': 15}
     return d
 
 
@@ -48,6 +48,18 @@ def generate(rng, tier, shard, nshards):
                     'tiny': (gen.logu(rng, 1e-175, 1e-160), gen.logu(rng, 1e-175, 1e-160)), 'huge': (gen.logu(rng, 1e150, 1e160), gen.logu(rng, 1e150, 1e160))}[kind]
             yield {'lane': 'extreme-rectangle', 'w': w, 'h': h, 'angle': 0.0, 'cx': rng.uniform(-50, 50), 'cy': rng.uniform(-50, 50),
                    'annulus': rng.random() < 0.3, 'origin': rng.choice([[0, 0], [7, 3], [0.5, -2.25]]), 'kw': {}, 'rs': rng.randrange(2 ** 31)}
+            continue
+        if i % 25 == 9:
+            # a hole that is itself a ring (or a plain shape) cut out of an enclosing shape with ^ : the patch of any pixel region outlines
+            # the region's point set - here an outline with several nested sub-outlines
+            L = gen.logu(rng, 2, 100)
+            c = (rng.uniform(-100, 100), rng.uniform(-100, 100))
+            inner = gen.pixel_region_spec(rng, cls=rng.choice(['CircleAnnulusPixelRegion', 'EllipseAnnulusPixelRegion', 'RectangleAnnulusPixelRegion',
+                                                               'CirclePixelRegion', 'EllipsePixelRegion']), size=L, center=c, max_aspect=3.0, include='absent')
+            outer = gen.pixel_region_spec(rng, cls=rng.choice(['CirclePixelRegion', 'EllipsePixelRegion', 'RectanglePixelRegion']), size=3.2 * L, center=c,
+                                          max_aspect=1.3, include='absent')
+            yield {'lane': 'nested-xor', 'region': S.reg('CompoundPixelRegion', region1=inner, region2=outer, operator='xor'),
+                   'origin': rng.choice([[0, 0], [10, -3], [0, 12], [100.5, 64]]), 'kw': {}, 'rs': rng.randrange(2 ** 31)}
             continue
         cls = rng.choice(PATCHY + ['PointPixelRegion', 'LinePixelRegion', 'TextPixelRegion'])
         reg = gen.pixel_region_spec(rng, cls=cls, size=gen.logu(rng, 0.5, 200), center=(rng.uniform(-100, 100), rng.uniform(-100, 100)), max_aspect=10.0,
@@ -189,9 +201,46 @@ def run_extreme_rectangle(case, obs):
                   f'vertex at every corner of the rectangle (x in {xs}, y in {ys}); patch vertices {verts[:10].tolist()}', 'path-membership')
 
 
+def run_nested_xor(case, obs):
+    import matplotlib.patches as mp
+    import matplotlib.transforms as mtr
+    reg = S.build(case['region'])
+    ox, oy = case['origin']
+    art = reg.as_artist(origin=(ox, oy))
+    if not obs.check(isinstance(art, mp.Patch), 'artist-type', f'xor compound as_artist returned {type(art).__name__}', 'artist-type'):
+        return
+    q = {'kind': 'mixed', 'form': '1d', 'shape': None, 'dtype': 'float64', 'n': 300, 'rs': case['rs']}
+    pc = c01.make_queries(reg.region2, q)
+    px, py = np.asarray(pc.x, dtype=float), np.asarray(pc.y, dtype=float)
+    cx, cy, L = c01.region_scale(reg.region2)
+    decided = np.ones(px.shape, dtype=bool)
+    for leaf in (reg.region1, reg.region2):
+        m, band = geom.shape_margin(leaf, px, py)
+        decided &= np.abs(m) > np.asarray(band) + 2e-3 * L
+    sc = 1e5 / L
+    path = data_path(art).transformed(mtr.Affine2D().translate(-(cx - ox), -(cy - oy)).scale(sc))
+    pts = np.column_stack([(px - cx) * sc, (py - cy) * sc])
+    inside = np.zeros(px.shape, dtype=bool)
+    for sub in subpaths(path):
+        inside ^= sub.contains_points(pts)          # even-odd over the sub-outlines
+    exp = np.asarray(reg.contains(pc))
+    bad = decided & (inside != exp)
+    obs.count('nested-xor-artists')
+    if bad.any():
+        i = int(np.flatnonzero(bad)[0])
+        obs.violation('artist-outline-differs-from-region:CompoundPixelRegion',
+                      f'{type(reg.region1).__name__} ^ {type(reg.region2).__name__}: position ({px[i]!r},{py[i]!r}) is {"inside" if inside[i] else "outside"} the '
+                      f'patch (even-odd over its {len(subpaths(path))} sub-outlines) but {"inside" if exp[i] else "outside"} the region; {int(bad.sum())} of '
+                      f'{int(decided.sum())} points differ', region=repr(reg)[:300])
+    else:
+        obs.ok(int(decided.sum()), 'path-membership')
+
+
 def run_case(case, obs):
     if case['lane'] == 'extreme-rectangle':
         return run_extreme_rectangle(case, obs)
+    if case['lane'] == 'nested-xor':
+        return run_nested_xor(case, obs)
     import matplotlib
     import matplotlib.patches as mp
     import matplotlib.lines as ml
